@@ -359,6 +359,45 @@ func TestC20CLI(t *testing.T) {
 			pre += v.Name + " = " + lang.ExprText(lang.ValueExpr(v.V)) + ";\n"
 		}
 		script = pre + script
+		if gen.Uniform(rt, "resultshape", 4) == 0 {
+			// results whose printed form is hostile to whoever prints it:
+			// format verbs, quotes, line breaks, the words of the report itself
+			hostile := []string{"%s", "100%", "%d items", "%!v(x)", "%%", "%", "a\nb", "' - which is 'true'.", "type:INTEGER value:1", "\t", "%[1]s", "%v%v%v", "é%狐", "\\", "\"", ""}
+			var mk func(d int) lang.Value
+			mk = func(d int) lang.Value {
+				switch gen.Uniform(rt, "hk", 6) {
+				case 0:
+					if d > 0 {
+						a := lang.Array()
+						for i := rapid.IntRange(0, 3).Draw(rt, "hn"); i > 0; i-- {
+							a.A = append(a.A, mk(d-1))
+						}
+						return a
+					}
+				case 1:
+					if d > 0 {
+						h := lang.Hash()
+						for i, n := 0, rapid.IntRange(0, 2).Draw(rt, "hm"); i < n; i++ {
+							k := lang.Str(hostile[gen.Uniform(rt, "hkey", len(hostile))])
+							if _, dup := h.Lookup(k); !dup {
+								h.H = append(h.H, lang.Pair{K: k, V: mk(d - 1)})
+							}
+						}
+						return h
+					}
+				case 2:
+					return gen.Scalar(rt, "hscalar")
+				}
+				return lang.Str(hostile[gen.Uniform(rt, "hs", len(hostile))])
+			}
+			v := mk(2)
+			script = "return " + lang.ExprText(lang.ValueExpr(v)) + ";"
+			if rapid.Bool().Draw(rt, "viafield") {
+				doc.H = append(doc.H, lang.Pair{K: lang.Str("Hostile"), V: lang.Str(hostile[gen.Uniform(rt, "hf", len(hostile))])})
+				script = "return Hostile;"
+			}
+			col.Class("cli-hostile-result")
+		}
 		withJSON := len(doc.H) > 0 || rapid.Bool().Draw(rt, "withjson")
 		noOpt := rapid.Bool().Draw(rt, "noopt")
 		withTimeout := rapid.Bool().Draw(rt, "timeout")
